@@ -97,6 +97,7 @@ impl World {
                 self.quiesce()?;
                 Ok(true)
             }
+            Event::WatchdogRound(_) => Ok(false),
         }
     }
 
